@@ -278,7 +278,13 @@ func runC05(c *Ctx) {
 		case wc.outcome == "CRASH":
 			sig := "crash:" + m[0] + ":" + m[1]
 			if strings.Contains(wc.stderr, "goroutine stack exceeds") || strings.Contains(wc.stderr, "stack overflow") {
-				sig = "go-stack-exhaustion-via-fresh-stacks"
+				// the listed finding is specific: the recursion passes through a list operation that
+				// starts with a fresh value stack; any other way to exhaust the Go stack is new
+				if m[0] == "runaway-recursion-through-fresh-stacks" {
+					sig = "go-stack-exhaustion-via-fresh-stacks"
+				} else {
+					sig = "go-stack-exhaustion:" + m[0] + ":" + m[1]
+				}
 			}
 			c.Violation(sig, "the worker process died while evaluating the program", replay)
 		case wc.outcome == "TIMEOUT":
